@@ -92,6 +92,13 @@ func c19Gen(rng *rand.Rand) c19Doc {
 		// uint64 values above 2^53 must be rendered exactly
 		d.Body = string(b)
 		d.Class = "valid/" + d.Unit
+	case k == 6 && rng.Intn(2) == 0:
+		// a well-formed document followed by something: the body as a whole is not a JSON document
+		var v c19Doc
+		for v = c19Gen(rng); !v.Valid; v = c19Gen(rng) {
+		}
+		d.Body = v.Body + []string{"}", " x", "{}", " {\"sliceName\": \"second\"}", ",", "]", " {\"sliceName\":", "\x00", "null"}[rng.Intn(9)]
+		d.Class = "malformed/trailing-data"
 	case k == 6:
 		d.Body = []string{"", "{", "not json", "[1,2", "{\"sliceName\": ", "\x00\x01", "{\"sliceQos\": {\"uplinkMbr\": }}"}[rng.Intn(7)]
 		d.Class = "malformed/syntax"
